@@ -189,6 +189,41 @@ fn run_cmd_close_after_limit(cmd: &mut Command, k: usize, limit: Duration) -> (R
     (RunOut { code, signal, stdout, stderr, timed_out, wall: started.elapsed() }, cap)
 }
 
+/// Count a watchdog expiry that is followed by a retry (for callers that run their own watchdog).
+pub fn note_retry() {
+    RETRIES.fetch_add(1, std::sync::atomic::Ordering::SeqCst);
+}
+
+/// Kill the descendants of this process whose command name is one of `names` (children of an in-process
+/// reader that hangs: they cannot be reached through the reader's API).
+pub fn kill_descendants(names: &[&str]) {
+    let me = std::process::id();
+    let mut procs: Vec<(u32, u32, String)> = vec![]; // pid, ppid, comm
+    if let Ok(rd) = std::fs::read_dir("/proc") {
+        for e in rd.flatten() {
+            let Some(pid) = e.file_name().to_str().and_then(|s| s.parse::<u32>().ok()) else { continue };
+            let Ok(stat) = std::fs::read_to_string(e.path().join("stat")) else { continue };
+            let (Some(l), Some(r)) = (stat.find('('), stat.rfind(')')) else { continue };
+            let comm = stat[l + 1..r].to_string();
+            let ppid = stat[r + 1..].split_whitespace().nth(1).and_then(|s| s.parse::<u32>().ok()).unwrap_or(0);
+            procs.push((pid, ppid, comm));
+        }
+    }
+    let mut family: Vec<u32> = vec![me];
+    for _ in 0..4 {
+        for (pid, ppid, _) in &procs {
+            if family.contains(ppid) && !family.contains(pid) {
+                family.push(*pid);
+            }
+        }
+    }
+    for (pid, _, comm) in &procs {
+        if *pid != me && family.contains(pid) && names.contains(&comm.as_str()) {
+            let _ = Command::new("kill").arg("-9").arg(pid.to_string()).status();
+        }
+    }
+}
+
 pub fn is_root() -> bool {
     std::fs::read_to_string("/proc/self/status")
         .ok()
